@@ -266,6 +266,40 @@ def suite_missing(ctx, case):
         want = 'ok' if not case['missing'] else 'ValueError'
         ctx.pred('missing', case, outs == [want, want], 'type labels %s: check()/createPRISM() -> %s with missing %s (expected %s)' % (labels[:sd['n']], outs, case['missing'], want), key='C16:check')
 
+    if not case['missing']:
+        equivalent_descriptions(ctx, case, sd)
+
+def equivalent_descriptions(ctx, case, sd):
+    """the same physical system described with other legal type labels, or with every energy (and kT) in other units, is wired into the
+    same PRISM object: omega x site density, pair densities, each pair's potential / kT and contact distance, position by position"""
+    from . import C04
+    with warnings.catch_warnings():
+        warnings.simplefilter('ignore')
+        try: ref = G.build_system(sd).createPRISM()
+        except Exception: return
+        n = sd['n']
+        def wiring(p):
+            ty = p.sys.types
+            return ([np.asarray(p.sys.closure[ty[i], ty[j]].potential, dtype=float) for (i, j) in G.pairs_of(n)], [p.sys.closure[ty[i], ty[j]].sigma for (i, j) in G.pairs_of(n)])
+        U0, S0 = wiring(ref)
+        variants = [('type labels %s' % lab[:n], sd, lab[:n]) for lab in ([1, 2, 3, 4], [1, 0, 3, 2], [2, 1, 4, 3], ['B', 'A', 'D', 'C'])]
+        variants += [('all energies and kT x %g' % f, C04.scale_sd(sd, f), None) for f in (4.14e-21, 1.66e-24, 2.5e3)]
+        for what, sdv, lab in variants:
+            try:
+                p = G.build_system(sdv, types=lab).createPRISM()
+            except Exception as e:
+                ctx.pred('missing', case, False, '%s: createPRISM raised %s' % (what, type(e).__name__), key='C16:wiring'); continue
+            U1, S1 = wiring(p)
+            ok = bool(np.array_equal(p.omega.data, ref.omega.data)) and bool(np.array_equal(p.pairDensityMatrix if hasattr(p, 'pairDensityMatrix') else p.sys.density.pair.data, ref.pairDensityMatrix if hasattr(ref, 'pairDensityMatrix') else ref.sys.density.pair.data))
+            why = 'omega or the pair densities differ'
+            if ok:
+                for a, b in zip(U0, U1):
+                    with np.errstate(all='ignore'):
+                        same = (a == b) | (np.abs(a - b) <= 1e-11 * np.abs(a)) | (np.isnan(a) & np.isnan(b))
+                    if a.shape != b.shape or not bool(np.all(same)): ok = False; why = 'a pair\'s potential / kT differs (%.6g vs %.6g)' % (float(a[np.argmax(~same)]) if a.shape == b.shape else 0, float(b[np.argmax(~same)]) if a.shape == b.shape else 0)
+                if S0 != S1: ok = False; why = 'a closure contact distance differs'
+            ctx.pred('missing', case, ok, 'the same system described with %s is wired differently: %s' % (what, why), key='C16:wiring')
+
 SUITES = {'history': suite_history, 'missing': suite_missing}
 
 def gen_edit(rng, sd_hint, n, L):
